@@ -134,7 +134,9 @@ def seg_matches(mseg, seg, qual):
         return True
     q = mseg.qual
     if q is None:
-        return True
+        # no qualifier element by the map's rule: the bracketed value is compared with the first element (its first component)
+        v = mseg.vals[0][0] if mseg.vals and mseg.vals[0] else None
+        return v == qual
     e, s, codes = q
     v = seg_value(mseg, e, s if s else None)
     if s is None and v is not None and ':JOIN:' in v:
